@@ -55,14 +55,25 @@ def compare(chk, rule, section, cur, what, floor, row_filter=None, fn_filter=Non
                 if rr:
                     out[fn] = rr
             return out
+        ora_full = ora
         ora = flt(ora)
+        # functions the reviewed table does not know at all stay in: they may hold rows relocated out of a selected function
+        newf = {fn: rows for fn, rows in cur.items() if fn not in ora_full}
         cur = flt(cur)
+        for fn, rows in newf.items():
+            rr = [r for r in rows if (row_filter is None or row_filter(r))]
+            if rr and fn not in cur:
+                cur[fn] = rr
     n = sum(len(v) for v in cur.values())
     n = sum(len(v) for v in cur.values())
     if ora is None:
         chk.add(Finding(rule, rule + "::oracle", "oracle/diag_table.json has no section %s" % section))
         chk.rule(rule, what, n, floor=floor)
         return
+    def effkind(eff):
+        # effect without the parameter-relative operand descriptions (they change when code moves into a helper)
+        return re.sub(r"\b(arg\d+\*?|local:[^,)]*|var)([.\w|\[\]]*)", "_", eff)
+    diffs = {}
     for fn in sorted(set(cur) | set(ora)):
         a = [json.dumps(r) for r in cur.get(fn, [])]
         b = [json.dumps(r) for r in ora.get(fn, [])]
@@ -73,6 +84,24 @@ def compare(chk, rule, section, cur, what, floor, row_filter=None, fn_filter=Non
                 extra.remove(r)
             else:
                 missing.append(r)
+        if missing or extra:
+            diffs[fn] = [missing, extra]
+    # relocation: rows that left a reviewed function and reappear, with the same effect, in a function the reviewed table does
+    # not know (a helper extracted from it) are the same decision made in another place - not a difference
+    newfns = [fn for fn in diffs if fn not in ora]
+    for fn, (missing, extra) in diffs.items():
+        if fn in newfns:
+            continue
+        for r in list(missing):
+            eff = json.loads(r)[0]
+            for nf in newfns:
+                hit = next((x for x in diffs[nf][1] if effkind(json.loads(x)[0]) == effkind(eff)), None)
+                if hit is not None:
+                    diffs[nf][1].remove(hit)
+                    missing.remove(r)
+                    break
+    for fn in sorted(diffs):
+        missing, extra = diffs[fn]
         body = mir.prog().bodies.get(fn) or next((x for x in mir.prog().bodies.values() if mir.strip_generics(x.id) == fn), None)
         where = body.where() if body else fn
         # pair up changed rows by effect for readable messages
@@ -90,6 +119,8 @@ def compare(chk, rule, section, cur, what, floor, row_filter=None, fn_filter=Non
                 chk.add(Finding(rule, "%s::%s::%s::missing" % (rule, fn, eff), "%s: the diagnostic/effect `%s` (under %s) no longer exists" % (fn, eff, gs), where))
         for r in extra:
             eff, gs = json.loads(r)
+            if fn_filter is not None and fn in newfns:
+                continue        # a new function outside this rule's selection: reported by the rule that selects the whole table
             chk.add(Finding(rule, "%s::%s::%s::new::%s" % (rule, fn, eff, "|".join(gs)), "%s: new diagnostic/effect `%s` under %s (not in the reviewed table)" % (fn, eff, gs), where))
     chk.rule(rule, what, n, floor=floor)
 
